@@ -139,6 +139,15 @@ let ssd side f =
         let cat l = List.concat (List.map (fun p -> p.p_bytes) l) in
         Printf.sprintf "%s %s %s %s" (hexo (cat a)) (hexo (cat b)) (hexo (cat b)) (hexo (cat b))
 
+let ssdcat side f =
+  let data = unhex (List.nth f 0) in
+  if not (valid_utf8 (nlist data)) then "INVALID-UTF8"
+  else
+    let all = match side with
+      | `Spec -> spec_strip (nlist data)
+      | `Model -> List.concat (List.map (fun p -> p.p_bytes) (unopt (strip_str_pieces (nlist data)))) in
+    Printf.sprintf "%s %s %s" (hexo all) (hexo all) (hexo all)
+
 let sbx side f =
   let d1 = unhex (List.nth f 0) and d2 = unhex (List.nth f 1) and k = int_of_string (List.nth f 2) in
   match side with
@@ -153,6 +162,7 @@ let sbx side f =
 let () =
   register "c02big" (fun _ _ -> "N/A");
   register "ssd" ssd;
+  register "ssdcat" ssdcat;
   register "sbx" sbx;
   register "tbl" tbl;
   register "c02" c02;
